@@ -114,7 +114,14 @@ var cost struct{ n, cap int64 }
 
 func init() { cost.cap = 1 << 62 }
 
+// counting is switched off (before the goroutines start) by the conc cases: the call counter
+// is a plain global of the single-threaded cases.
+var counting = true
+
 func tick() {
+	if !counting {
+		return
+	}
 	cost.n++
 	if cost.n > cost.cap {
 		panic(costExceeded{})
@@ -256,7 +263,12 @@ type registry struct {
 
 func (g *registry) nameOf(e *dyn.Expr) string { return g.name[e] }
 
+// buildOrd memoises by expression node: a node that occurs at several places of an expression
+// DAG (fork cases) is built once and the identical instance VALUE is used everywhere.
 func buildOrd(e *dyn.Expr, reg *registry) fp.Ord[V] {
+	if out, ok := reg.inst[e]; ok {
+		return out
+	}
 	kids := make([]fp.Ord[V], len(e.Kids))
 	for i, k := range e.Kids {
 		kids[i] = buildOrd(k, reg)
@@ -434,6 +446,10 @@ type caseT struct {
 	x, y    []V
 	failed  bool
 	deep    bool // designated case: all single-position pairs of a large tuple, whatever they cost
+	// estLimit: pairs estimated above it are not evaluated (0 = the default estLimit)
+	estLimit float64
+	// sortLens: input lengths of the Sort / Min / Max trials (nil = PRNG lengths)
+	sortLens []int
 }
 
 func (c *caseT) show(i int) string { return dyn.Show(c.e.Dom, c.pool[i].M) }
@@ -577,7 +593,11 @@ func (c *caseT) checkOrder(inst fp.Ord[V]) (ties, onePos int) {
 		for j := 0; j < n; j++ {
 			a, b := c.x[i], c.x[j]
 			must := mandated(i, j)
-			if !must && (estimate(e, c.pool[i].M, c.pool[j].M) > estLimit || estimate(e, c.pool[j].M, c.pool[i].M) > estLimit) {
+			lim := c.estLimit
+			if lim == 0 {
+				lim = estLimit
+			}
+			if !must && (estimate(e, c.pool[i].M, c.pool[j].M) > lim || estimate(e, c.pool[j].M, c.pool[i].M) > lim) {
 				w.Add("pairs.skipped_by_cost_estimate", 1)
 				continue
 			}
@@ -950,6 +970,10 @@ func (c *caseT) checkSorts(inst fp.Ord[V], trials int) {
 		if t == 0 && c.idx%16 == 0 {
 			length = 0
 		}
+		if c.sortLens != nil {
+			length = c.sortLens[t%len(c.sortLens)]
+			w.Add("sort.sized_input."+strconv.Itoa(length), 1)
+		}
 		mode := r.IntN(5)
 		idsIn := make([]int, length)
 		switch mode {
@@ -1195,7 +1219,13 @@ func runCase(w *vrt.W, i int) {
 	if w.Tier == "thorough" {
 		n, trials = 40, 3
 	}
-	c := &caseT{w: w, idx: i, e: e, deep: deep, pool: dyn.GenPool(r, e.Dom, n), reg: &registry{map[*dyn.Expr]fp.Ord[V]{}, map[*dyn.Expr]string{}}}
+	checkPoolCase(&caseT{w: w, idx: i, e: e, deep: deep, pool: dyn.GenPool(r, e.Dom, n), reg: &registry{map[*dyn.Expr]fp.Ord[V]{}, map[*dyn.Expr]string{}}}, trials)
+}
+
+// checkPoolCase: the instance denoted by c.e on all pairs and triples of c.pool, then Sort /
+// Min / Max driven by it.
+func checkPoolCase(c *caseT, trials int) {
+	w, i, e, deep := c.w, c.idx, c.e, c.deep
 	ctx := dyn.NewCtx() // one context for the whole pool: pinned parts of different values share their storage
 	for _, en := range c.pool {
 		c.x = append(c.x, ctx.Build(e.Dom, en.M))
@@ -1271,30 +1301,102 @@ func allNames() []string {
 	return out
 }
 
+// batch layout: [classic | fork | sized | conc (first half in the -race build)]; the new
+// families are appended so that the PRNG streams of the classic batches stay where they were
+func classicBatches(tier string) int {
+	if tier == "thorough" {
+		return 64
+	}
+	return 16
+}
+
+func forkBatches(tier string) int {
+	if tier == "thorough" {
+		return 8
+	}
+	return 2
+}
+
+func sizedBatches(tier string) int {
+	if tier == "thorough" {
+		return 8
+	}
+	return 2
+}
+
+func concBatches(tier string) int {
+	if tier == "thorough" {
+		return 8
+	}
+	return 4
+}
+
+// family of batch b and its index inside the family
+func batchFamily(tier string, b int) (string, int) {
+	if b < classicBatches(tier) {
+		return "classic", b
+	}
+	b -= classicBatches(tier)
+	if b < forkBatches(tier) {
+		return "fork", b
+	}
+	b -= forkBatches(tier)
+	if b < sizedBatches(tier) {
+		return "sized", b
+	}
+	return "conc", b - sizedBatches(tier)
+}
+
 func main() {
 	vrt.Main(vrt.Config{
 		Property:      "C10",
 		CaseCPUBudget: 120,
+		WorkerProcs:   8,
 		Batches: func(tier string) int {
-			if tier == "thorough" {
-				return 64
-			}
-			return 16
+			return classicBatches(tier) + forkBatches(tier) + sizedBatches(tier) + concBatches(tier)
 		},
-		Cases: func(tier string, b int) int { return casesPerBatch(tier) },
+		Cases: func(tier string, b int) int {
+			switch fam, k := batchFamily(tier, b); fam {
+			case "fork":
+				return 200
+			case "sized":
+				return sizedPerBatch()
+			case "conc":
+				if k < concBatches(tier)/2 {
+					return 120 // -race build
+				}
+				return 400
+			}
+			return casesPerBatch(tier)
+		},
+		RaceBatch: func(tier string, b int) bool {
+			fam, k := batchFamily(tier, b)
+			return fam == "conc" && k < concBatches(tier)/2
+		},
 		Run: func(w *vrt.W) {
 			calibrate()
 			w.Max("cost.measured_growth_per_equal_leading_field_x100", int64(growth*100))
+			fam, k := batchFamily(w.Tier, w.Batch)
 			for i := w.From; i < w.To; i++ {
-				runCase(w, i)
+				switch fam {
+				case "fork":
+					runForkCase(w, i)
+				case "sized":
+					runSizedCase(w, i, k)
+				case "conc":
+					runConcCase(w, i)
+				default:
+					runCase(w, i)
+				}
 			}
 		},
-		Rule: "case = one Ord instance expression + one value pool + Sort/Min/Max runs driven by that instance. The expression is drawn by a PRNG over Given (13 numeric kinds and string), Time, Option, Seq, Slice, Ptr (lazy.Done|lazy.Call), Tuple1..21, HCons/HNil, ContraMap and GivenField (through id/half/neg/len/lower/floor/isDefined/tuple projection), New, FromCompare (results scaled by 1, 3, 2^40), as.Ord, Reversed and ThenComparing (primary = an order with ties, both on LessFunc- and CompareFunc-backed receivers), nested up to 3 combinators deep with every component type instantiated at any; global case number g forces catalogue entry g mod 37 (each instance, every tuple arity, an 18-element HCons chain) at nesting level 0,1,2(,3). The pool (>=24 quick / >=40 thorough values) holds random base values, copies in another representation, one single-position mutant per tuple component / sequence element of the first base value, all proper prefixes and an extension for sequence roots, and random further mutants; if values of the domain have storage (fp.Seq, []T, pointers at any depth), additionally one value without empty parts whose slices are windows of longer backing arrays, a fresh copy of it, and values sharing all their storage with it (one allocation context per pool) except for one sequence that is another window of the same array (same start shorter / longer, same content at another offset, overlapping window), the identical object once more, and mutants sharing every untouched part; NaN is never generated. Leaves: integers at both extremes of every width and around +-2^7..2^63, floats +-0/+-Inf/+-max/subnormals/neighbours of 1/beyond 2^53 and 2^64, strings with long shared prefixes, NULs, invalid UTF-8, substrings of one string; time.Time from year -1000 to 30000 incl. the zero Time, both ends of the int64-nanosecond window (1677-09-21 / 2262-04-11) to the nanosecond, pre-1970 instants with fractions, 5 locations, forged mutually consistent monotonic readings. On all ordered pairs and all triples: exactly one of Less(a,b), Less(b,a), Eqv(a,b); Less and Eqv transitive; Compare sign, LessEq, Min, Max consistent with Less; Less, Eqv and Compare equal to the reference order on the models (leaf <, instants, None/nil first, lexicographic with the shorter prefix first, function-then-order for ContraMap/GivenField, wrapped order for New/FromCompare/as.Ord, flipped for Reversed, primary-then-secondary for ThenComparing). Every leaf instance sits behind a call counter: one Less/Eqv/Compare/LessEq/Min/Max call may invoke the component instances at most 200 * 3^depth(expression) * size(a,b) times (logical budget, key <combinator>/exponential-comparisons); per run and wide product (Tuple10..21, HCons chain of 18) one designated deep case evaluates the first base value against its mutant at every position whatever it costs, other pairs whose estimated cost (calibrated by measuring Tuple6 vs Tuple12) is too high are skipped and counted. If the instance is consistent, seq|iterator|list.Sort/Min/Max run on inputs of length 0..200 drawn from the pool with replacement (random, pre-sorted, reversed, 1-3 distinct values); elements carry an identity tag so that permutation, untouched input, sortedness (by the instance and by the reference), least/greatest element and None-on-empty are decided exactly. distinct_nontrivial counts distinct (expression, pool) fingerprints of cases whose pool had at least one tie between different pool entries AND at least one strictly ordered pair exactly one position apart.",
+		Rule: "case = one Ord instance expression + one value pool + Sort/Min/Max runs driven by that instance. The expression is drawn by a PRNG over Given (13 numeric kinds and string), Time, Option, Seq, Slice, Ptr (lazy.Done|lazy.Call), Tuple1..21, HCons/HNil, ContraMap and GivenField (through id/half/neg/len/lower/floor/isDefined/tuple projection), New, FromCompare (results scaled by 1, 3, 2^40), as.Ord, Reversed and ThenComparing (primary = an order with ties, both on LessFunc- and CompareFunc-backed receivers), nested up to 3 combinators deep with every component type instantiated at any; global case number g forces catalogue entry g mod 37 (each instance, every tuple arity, an 18-element HCons chain) at nesting level 0,1,2(,3). The pool (>=24 quick / >=40 thorough values) holds random base values, copies in another representation, one single-position mutant per tuple component / sequence element of the first base value, all proper prefixes and an extension for sequence roots, and random further mutants; if values of the domain have storage (fp.Seq, []T, pointers at any depth), additionally one value without empty parts whose slices are windows of longer backing arrays, a fresh copy of it, and values sharing all their storage with it (one allocation context per pool) except for one sequence that is another window of the same array (same start shorter / longer, same content at another offset, overlapping window), the identical object once more, and mutants sharing every untouched part; NaN is never generated. Leaves: integers at both extremes of every width and around +-2^7..2^63, floats +-0/+-Inf/+-max/subnormals/neighbours of 1/beyond 2^53 and 2^64, strings with long shared prefixes, NULs, invalid UTF-8, substrings of one string; time.Time from year -1000 to 30000 incl. the zero Time, both ends of the int64-nanosecond window (1677-09-21 / 2262-04-11) to the nanosecond, pre-1970 instants with fractions, 5 locations, forged mutually consistent monotonic readings. On all ordered pairs and all triples: exactly one of Less(a,b), Less(b,a), Eqv(a,b); Less and Eqv transitive; Compare sign, LessEq, Min, Max consistent with Less; Less, Eqv and Compare equal to the reference order on the models (leaf <, instants, None/nil first, lexicographic with the shorter prefix first, function-then-order for ContraMap/GivenField, wrapped order for New/FromCompare/as.Ord, flipped for Reversed, primary-then-secondary for ThenComparing). Every leaf instance sits behind a call counter: one Less/Eqv/Compare/LessEq/Min/Max call may invoke the component instances at most 200 * 3^depth(expression) * size(a,b) times (logical budget, key <combinator>/exponential-comparisons); per run and wide product (Tuple10..21, HCons chain of 18) one designated deep case evaluates the first base value against its mutant at every position whatever it costs, other pairs whose estimated cost (calibrated by measuring Tuple6 vs Tuple12) is too high are skipped and counted. If the instance is consistent, seq|iterator|list.Sort/Min/Max run on inputs of length 0..200 drawn from the pool with replacement (random, pre-sorted, reversed, 1-3 distinct values); elements carry an identity tag so that permutation, untouched input, sortedness (by the instance and by the reference), least/greatest element and None-on-empty are decided exactly. distinct_nontrivial counts distinct (expression, pool) fingerprints of cases whose pool had at least one tie between different pool entries AND at least one strictly ordered pair exactly one position apart. Three more batch families follow the classic ones. FORK batches: one base instance VALUE (7 in 10: an order on one component of a product of 3..10 leaves, so that it has ties), a chain of 1..9 successive derivations of it and 2..4 further derivations of every chain member - ThenComparing with different tie-breakers (as receiver and as argument), Reversed, ContraMap through different functions, New, FromCompare (scales 1, 3, 2^40), as.Ord, Option, Seq, Slice, Ptr via lazy.Done|lazy.Call, TupleN at different positions with different companions, HCons as head or tail neighbour; half of the chains consist of one family only (ThenComparing most often, so that a value built by k = 0..9 successive ThenComparing calls is forked again by ThenComparing); all instances are kept (up to ~45), each is used on its pool right after it was built and compared with its own reference order (Less, Compare; Eqv, LessEq on a quarter of the pairs) only after ALL of them exist, in PRNG order, twice; a disagreement that a freshly built instance of the same expression does not show is keyed <combinator>/forked-instance-disturbed (Ord.ThenComparing, Ord.Reversed, ord.Option, ...). SIZED batches: domains with one fp.Seq / []T of exactly 0,1,7,8,9,15,16,17,31,32,33,63,64,65,100,128,129,257,1000 elements (root or below Option / Ptr / a tuple / an hlist) with a pool of neighbours (another representation, first / middle / last element changed, one shorter / longer, same first half, windows of one backing array) through the same pair / triple oracle, and Sort / Min / Max inputs of exactly those lengths. CONC batches (half of them in the -race build, DATA RACEs with a frame inside csgura/fp are violations race/<location>): ONE instance value (every third case contains the package-level ord.Time or ord.HNil) is used by 4..32 goroutines released together, each on its own private pool (all pairs, and seq.Sort by the instance) with PRNG runtime.Gosched() yields; every answer must equal what the same instance answered single-threaded beforehand (key <instance>/concurrent-use-differs).",
 		Assumptions: []string{
 			"component types are instantiated at any (boxed values); the generic library code is the same for every type argument",
 			"functions given to ContraMap / GivenField / New / FromCompare / as.Ord are pure; compare functions return small or large magnitudes but never math.MinInt",
 			"values are PRNG-sampled; NaN excluded (floats are not totally ordered with NaN)",
 			"stability of Sort is not demanded",
+			"an instance is a value: it may be used by any number of goroutines at once (each on its own values) and any number of further instances may be derived from it; neither may change what it or another instance answers (instances are package-level variables in the library and in derived code)",
 			"the cost budget (200 * 3^depth * size component calls per call) separates polynomial from exponential behaviour only for products of about 12 or more fields",
 		},
 		Floors: func(tier string) map[string]int64 {
@@ -1336,6 +1438,40 @@ func main() {
 				}
 			}
 			fl["deep.ord.HCons"] = 1
+			// forks of one instance value: every chain length, every family, ThenComparing forked
+			// after 0..9 successive ThenComparing calls, siblings that really order values differently
+			fl["fork.cases"] = 350
+			for k := 1; k <= 9; k++ {
+				fl["fork.chain_length."+strconv.Itoa(k)] = 15
+				fl["fork.pure_then_chain_of."+strconv.Itoa(k)] = 2
+			}
+			for k := 0; k <= 9; k++ {
+				fl["fork.then_forked_after_successive_then_calls."+strconv.Itoa(k)] = 3
+			}
+			for _, f := range ordForkFamilies {
+				fl["fork.family."+f] = 100
+			}
+			fl["fork.impl.LessFunc"] = 100
+			fl["fork.impl.CompareFunc"] = 1000
+			fl["fork.pairs_after_all_were_built"] = 500_000
+			fl["fork.then_siblings_with_different_tie_breaks"] = 200
+			fl["fork.value_pairs_on_which_two_siblings_differ"] = 50_000
+			// sized pools / sized Sort inputs: every family at every length
+			for _, f := range sizedFamilies {
+				for _, n := range dyn.SizedLens {
+					fl["sized."+f+"."+strconv.Itoa(n)] = 3
+				}
+			}
+			for _, n := range dyn.SizedLens {
+				fl["sort.sized_input."+strconv.Itoa(n)] = 3
+			}
+			// one instance value used by 4..32 goroutines at once
+			fl["conc.cases"] = 800
+			fl["conc.cases_with_16_or_more_goroutines"] = 250
+			fl["conc.calls"] = 5_000_000
+			fl["conc.sorts"] = 5000
+			fl["conc.shared_package_level.ord.Time"] = 50
+			fl["conc.shared_package_level.ord.HNil"] = 50
 			return fl
 		},
 		Finish: func(tier string, m *vrt.Merged, cov map[string]any) {
@@ -1354,6 +1490,21 @@ func main() {
 			cov["values_sharing_storage_with_another_pool_value"] = m.Counters["alias.values_with_shared_storage"]
 			cov["time_values_outside_int64_nanoseconds"] = m.Counters["time.values_outside_int64_nanoseconds"]
 			cov["time_monotonic_variant_available"] = dyn.MonoAvailable()
+			cov["sized_container_lengths"] = dyn.SizedLens
+			if cs, ok := cov["counters"].(map[string]int64); ok {
+				least := map[string]int64{}
+				for _, f := range sizedFamilies {
+					least[f] = -1
+					for _, n := range dyn.SizedLens {
+						key := "sized." + f + "." + strconv.Itoa(n)
+						if v := m.Counters[key]; least[f] < 0 || v < least[f] {
+							least[f] = v
+						}
+						delete(cs, key) // 57 counters: summarised
+					}
+				}
+				cov["sized_cases_per_length_at_least"] = least
+			}
 		},
 	})
 }
